@@ -421,7 +421,27 @@ class Repo:
             p = p[:-1]
         return ".".join(p)
 
+    def _load_all(self):
+        """Parse the whole package once and recover renamed anchor names (see canon.py) before anything is analysed."""
+        if getattr(self, "_loaded", False):
+            return
+        self._loaded = True
+        self.renamed = []
+        for rel in self.files():
+            mod = self.modname(rel)
+            if mod in self._trees:
+                continue
+            try:
+                self._trees[mod] = ast.parse(self.source(rel), filename=rel)
+            except SyntaxError as ex:
+                raise AnalysisError(f"{rel} does not parse: {ex}")
+        if not os.environ.get("BSA_NO_CANON"):
+            from .canon import recover
+
+            self.renamed = recover({m: t for m, t in self._trees.items() if not m.startswith(self.PKG + ".cli")})
+
     def tree(self, mod):
+        self._load_all()
         if mod not in self._trees:
             rel = self.relpath(mod)
             try:
